@@ -45,7 +45,9 @@ def spec_params(s):
 
 
 ARGSETS = [((), {}), ((1,), {}), ((1, 2), {}), ((), {'a': 1}), ((), {'a': 1, 'b': 'x'}), (([1, {'k': None}], 's'), {}),
-           ((), {'a': [1.5, None, {'z': []}]}), ((0,), {}), ((None,), {}), (('',), {}), ((), {'b': 2})]
+           ((), {'a': [1.5, None, {'z': []}]}), ((0,), {}), ((None,), {}), (('',), {}), ((), {'b': 2}),
+           # a single positional argument that is itself a JSON object: stays positional in every notation
+           (({'b': 1},), {}), (({'a': 1, 'zz': 2},), {}), (({},), {}), (([],), {})]
 IDGENS = [{'k': 'sequential', 'start': '1', 'step': '1'}, {'k': 'sequential', 'start': '0', 'step': '1'},
           {'k': 'sequential', 'start': '-3', 'step': '7'}, {'k': 'sequential', 'start': '10', 'step': '-1'},
           {'k': 'sequential', 'start': '5', 'step': '0'},
@@ -156,7 +158,7 @@ def generate(tier, rng):
             yield build_case(notation, [spec('m', (1,), {'a': 2})], g)         # positional and named together: refused
         for notation in BATCH_NOTATIONS:
             for n in range(0, 5 if thorough else 4):
-                for _ in range(3 if n else 1):
+                for _ in range((12 if thorough else 3) if n else 1):
                     items = []
                     for i in range(n):
                         args, kwargs = rng.choice(ARGSETS)
@@ -169,7 +171,8 @@ def generate(tier, rng):
     calls = [('echo', (1,), {}), ('echo', (1, 2), {}), ('echo', (), {'a': 1}), ('echo', (), {'a': [1, {'x': None}], 'b': 's'}),
              ('echo', (), {}), ('echo', (1, 2, 3), {}), ('noargs', (), {}), ('noargs', (1,), {}), ('kwonly', (), {'k': 1}),
              ('ctxm', (5,), {}), ('ctxm', (), {'ctx': 1}), ('fail_rpc', (), {}), ('fail_unreg', (), {}), ('fail_zero', (), {}),
-             ('fail_exc', (), {}), ('nosuch', (), {}), ('sub.null', (), {}), ('view.vm', (3,), {})]
+             ('fail_exc', (), {}), ('nosuch', (), {}), ('sub.null', (), {}), ('view.vm', (3,), {}),
+             ('echo', ({'b': 1},), {}), ('echo', ({'a': 7},), {}), ('echo', ({},), {}), ('deco_xy', (1,), {}), ('deco_a', (), {'a': 2})]
     clients = [{'strict': True}, {'strict': False}, {'strict': True, 'error_cls': U.errclass_json(U.ClientBaseError)}]
     for (m, args, kwargs) in calls:
         for cl in clients:
@@ -182,7 +185,7 @@ def generate(tier, rng):
             for notation in SINGLE_NOTATIONS:
                 yield loop_case(notation, [spec(m, args, kwargs, notify=(notation == 'notify'))], clients[0], g)
     for n in range(1, 5):
-        reps = (40 if thorough else 12) if n > 1 else len(calls)
+        reps = (500 if thorough else 30) if n > 1 else len(calls)
         for r in range(reps):
             items = []
             for i in range(n):
@@ -237,7 +240,7 @@ class _Loop:
         d = S.build_dispatcher(self.cfg, True, coroutine_methods=self.coroutine_methods)
         S.set_bodies(self.cfg)
         del S.LOG[:]
-        r = await d.dispatch(text, context=S.CTX)
+        r = await d.dispatch(text, context=S.next_ctx())
         self.events += list(S.LOG)
         return None if r is None else r[0]
 
